@@ -98,7 +98,7 @@ class Gen:
             return "", False
         if x < 0.19:
             # a text the library itself uses as a marker or word: an ordinary value like any other (plain and quoted)
-            return r.choice(["_none_", "(null)", "true", "NULL"]), (r.random() < 0.3 and not s.join)
+            return r.choice(["_none_", "(null)", "true", "NULL", "100%", "%s", "%%", "%n%d"]), (r.random() < 0.3 and not s.join)
         if x < 0.45 and not s.join:
             pool = s.valpool + list(s.C)
             if s.python:
